@@ -232,7 +232,55 @@ def judge_sup(cfg, W, labels, obs, snap):
     return bad
 
 
-HANDLERS = {"sup": run_sup}
+def run_sup_pair(req):
+    from opfython.models.supervised import SupervisedOPF
+    from opfython.models.semi_supervised import SemiSupervisedOPF
+    cfg = req["cfg"]
+    n, nq, branch, mode = cfg["n"], cfg.get("nq", 0), cfg["branch"], cfg["mode"]
+    labels = req["labels"]
+
+    def fp(cls, W, ids, labs, semi0=False):
+        opf = _build(cls, branch, W)
+        X, Y, I = _data(branch, n, labs, idx=ids)
+        if semi0:
+            opf.fit(X, Y, np.zeros((0, 1)), I)
+        else:
+            opf.fit(X, Y, I)
+        preds = None
+        if nq:
+            Xq, _, Iq = _data(branch, nq, None, offset=n)
+            preds = [_f(p) for p in opf.predict(Xq, Iq)]
+        g = opf.subgraph
+        return dict(cost=[_f(nd.cost) for nd in g.nodes], status=[_f(nd.status) for nd in g.nodes],
+                    plabel=[_f(nd.predicted_label) for nd in g.nodes], pred=[_f(nd.pred) for nd in g.nodes],
+                    label=[_f(nd.label) for nd in g.nodes], order=[_f(x) for x in g.idx_nodes], preds=preds)
+    ids = list(range(n))
+    ids_b = req["ids_b"]
+    A = fp(SupervisedOPF, req["W"], ids, labels)
+    if mode == "perm":
+        B = fp(SupervisedOPF, req["W"], ids_b, [labels[t] for t in ids_b])
+    elif mode == "otype":
+        B = fp(SupervisedOPF, req["V"], ids, labels)
+    else:
+        B = fp(SemiSupervisedOPF, req["W"], ids, labels, semi0=True)
+    bad = []
+    for j, s in enumerate(ids_b):
+        if A["status"][s] != B["status"][j]:
+            bad.append("same-status[%d]" % s)
+        if A["plabel"][s] != B["plabel"][j]:
+            bad.append("same-assigned-label[%d]" % s)
+        if mode != "otype" and A["cost"][s] != B["cost"][j]:
+            bad.append("same-cost[%d]" % s)
+        if mode == "semi0" and A["pred"][s] != B["pred"][j]:
+            bad.append("same-pred[%d]" % s)
+    if mode == "semi0" and A["order"] != B["order"]:
+        bad.append("same-order")
+    if A["preds"] != B["preds"]:
+        bad.append("same-prediction")
+    return dict(obs=dict(A=A, B=B), violated=bad)
+
+
+HANDLERS = {"sup": run_sup, "sup_pair": run_sup_pair}
 
 
 def _register_optional():
